@@ -1,7 +1,10 @@
 package main
 
 import (
+	"fmt"
+	"go/constant"
 	"go/token"
+	"go/types"
 	"sort"
 	"strings"
 
@@ -426,4 +429,411 @@ func ruleKEY5(c *Ctx) []Ob {
 		})
 	}
 	return o.list
+}
+
+// ---------------------------------------------------------------- KEY7
+
+// kpos is a position inside a scanned key, evaluated against one key layout.
+type kpos func(L Tmpl) (off int, fromEnd bool, why string)
+
+func absPos(n int) kpos     { return func(Tmpl) (int, bool, string) { return n, false, "" } }
+func endPos(n int) kpos     { return func(Tmpl) (int, bool, string) { return n, true, "" } }
+func badPos(why string) kpos { return func(Tmpl) (int, bool, string) { return 0, false, why } }
+
+func shiftPos(p kpos, d int) kpos {
+	return func(L Tmpl) (int, bool, string) {
+		o, fe, why := p(L)
+		if why != "" {
+			return 0, false, why
+		}
+		if fe {
+			return o - d, true, ""
+		}
+		return o + d, false, ""
+	}
+}
+
+// literalHead: the literal text a key of layout L starts with.
+func literalHead(L Tmpl) string {
+	s := ""
+	for _, p := range L {
+		if p.K != pLit {
+			break
+		}
+		s += p.S
+	}
+	return s
+}
+
+type kspan struct{ lo, hi kpos }
+
+// KEY7: a name or id that is recovered from a scanned key (store.Item.Key
+// converted to a string) is exactly one variable part of a key layout that is
+// written: it is cut at positions that follow from the layout's literal text
+// (a stripped literal prefix, a constant offset, the first occurrence of a
+// byte inside the literal head, a fixed-length id at the end), never at a
+// position found by searching inside the variable part - a name may contain
+// any byte that a search looks for.
+func ruleKEY7(c *Ctx) []Ob {
+	o := newObs(c, "KEY7")
+	k := c.keys()
+	m := c.keyModel()
+	// written layouts
+	var layouts []Tmpl
+	seenL := map[string]bool{}
+	for _, s := range m.sinks {
+		if s.Op != "Set" {
+			continue
+		}
+		for _, t := range s.Tmpls {
+			t = t.norm()
+			if t.isNil() || t.onlyOpaque() || seenL[t.skeleton()] {
+				continue
+			}
+			seenL[t.skeleton()] = true
+			layouts = append(layouts, t)
+		}
+	}
+	litOf := func(v ssa.Value) (string, bool) {
+		ts := k.evalAt(v)
+		if len(ts) != 1 {
+			return "", false
+		}
+		s := ""
+		for _, p := range ts[0].norm() {
+			if p.K != pLit {
+				return "", false
+			}
+			s += p.S
+		}
+		return s, true
+	}
+	type terminal struct {
+		fn   *ssa.Function
+		at   ssa.Instruction
+		span kspan
+	}
+	var terms []terminal
+	type visitKey struct {
+		v ssa.Value
+	}
+	visited := map[visitKey]bool{}
+	var track func(v ssa.Value, sp kspan, depth int) // forward propagation
+	// evalRel evaluates a slice bound x relative to the tracked value v with span sp.
+	var evalRel func(x ssa.Value, v ssa.Value, sp kspan) kpos
+	sameVal := func(a, b ssa.Value) bool {
+		if a == b {
+			return true
+		}
+		for _, oa := range origins(a) {
+			for _, ob := range origins(b) {
+				if oa == ob {
+					return true
+				}
+				// two reads of the same field of the same item
+				ba, fa, na := fieldLoad(oa)
+				bb, fb, nb := fieldLoad(ob)
+				if na != nil && na == nb && fa == fb && ba == bb {
+					return true
+				}
+			}
+		}
+		return false
+	}
+	evalRel = func(x ssa.Value, v ssa.Value, sp kspan) kpos {
+		if n, ok := constInt(x); ok {
+			return func(L Tmpl) (int, bool, string) {
+				o, fe, why := sp.lo(L)
+				if why != "" {
+					return 0, false, why
+				}
+				if fe {
+					return o - int(n), true, ""
+				}
+				return o + int(n), false, ""
+			}
+		}
+		switch e := x.(type) {
+		case *ssa.BinOp:
+			if e.Op == token.ADD || e.Op == token.SUB {
+				sign := 1
+				if e.Op == token.SUB {
+					sign = -1
+				}
+				if n, ok := constInt(e.Y); ok {
+					return shiftPos(evalRel(e.X, v, sp), sign*int(n))
+				}
+				if n, ok := constInt(e.X); ok && e.Op == token.ADD {
+					return shiftPos(evalRel(e.Y, v, sp), int(n))
+				}
+				// len(v) - len(P) and the like
+				if cl, ok := e.Y.(*ssa.Call); ok {
+					if b, ok := cl.Common().Value.(*ssa.Builtin); ok && b.Name() == "len" {
+						if s, ok := litOf(cl.Common().Args[0]); ok {
+							return shiftPos(evalRel(e.X, v, sp), sign*len(s))
+						}
+					}
+				}
+			}
+		case *ssa.Convert:
+			return evalRel(e.X, v, sp)
+		case *ssa.Call:
+			cc := e.Common()
+			if b, ok := cc.Value.(*ssa.Builtin); ok && b.Name() == "len" {
+				if sameVal(cc.Args[0], v) {
+					return sp.hi // len(v): the end of v
+				}
+				if s, ok := litOf(cc.Args[0]); ok {
+					return evalRel(ssa.NewConst(constant.MakeInt64(int64(len(s))), types.Typ[types.Int]), v, sp)
+				}
+				return badPos("a length that does not follow from the key layout")
+			}
+			full := calleeFullName(e)
+			switch full {
+			case "bytes.IndexByte", "bytes.Index", "strings.Index", "strings.IndexByte", "bytes.IndexRune", "strings.IndexRune":
+				if len(cc.Args) == 2 && sameVal(cc.Args[0], v) {
+					sep := ""
+					if n, ok := constInt(cc.Args[1]); ok {
+						sep = string(rune(n))
+					} else if s, ok := litOf(cc.Args[1]); ok {
+						sep = s
+					}
+					if sep == "" {
+						return badPos("a search for a separator that is not a constant")
+					}
+					return func(L Tmpl) (int, bool, string) {
+						lo, fe, why := sp.lo(L)
+						if why != "" {
+							return 0, false, why
+						}
+						head := literalHead(L)
+						if fe || lo > len(head) {
+							return 0, false, "a search (" + full + ") that starts inside the variable part of the key"
+						}
+						i := strings.Index(head[lo:], sep)
+						if i < 0 {
+							return 0, false, fmt.Sprintf("the first %q is searched in the variable part of the key, which may contain it", sep)
+						}
+						return lo + i, false, ""
+					}
+				}
+			case "bytes.LastIndexByte", "bytes.LastIndex", "strings.LastIndex", "strings.LastIndexByte", "bytes.LastIndexAny", "strings.LastIndexAny", "bytes.IndexAny", "strings.IndexAny":
+				return badPos("the position found by " + full + " depends on the content of the variable part (a name containing the separator is cut short)")
+			}
+			return badPos("a position computed by " + full)
+		}
+		return badPos("a position that does not follow from the key layout")
+	}
+	track = func(v ssa.Value, sp kspan, depth int) {
+		if depth > 8 || visited[visitKey{v}] {
+			return
+		}
+		visited[visitKey{v}] = true
+		for _, r := range realReferrers(v) {
+			switch x := r.(type) {
+			case *ssa.Slice:
+				if x.X != v {
+					continue
+				}
+				nsp := sp
+				if x.Low != nil {
+					nsp.lo = evalRel(x.Low, v, sp)
+				}
+				if x.High != nil {
+					nsp.hi = evalRel(x.High, v, sp)
+				}
+				track(x, nsp, depth+1)
+			case *ssa.Convert:
+				track(x, sp, depth+1)
+			case *ssa.ChangeType:
+				track(x, sp, depth+1)
+			case *ssa.Phi:
+				track(x, sp, depth+1)
+			case *ssa.Store:
+				// local variable cell
+				if al, ok := x.Addr.(*ssa.Alloc); ok && x.Val == v {
+					for _, rr := range realReferrers(al) {
+						if l, ok := rr.(*ssa.UnOp); ok && l.Op == token.MUL {
+							track(l, sp, depth+1)
+						}
+					}
+					continue
+				}
+				if isStringType(v.Type()) {
+					terms = append(terms, terminal{x.Parent(), x, sp})
+				}
+			case *ssa.BinOp:
+				// comparisons: no data leaves
+			case *ssa.Return:
+				fn := x.Parent()
+				idx := -1
+				for i, rv := range x.Results {
+					if rv == v {
+						idx = i
+					}
+				}
+				sites := c.staticCallers(fn)
+				if idx < 0 || len(sites) == 0 || fn.Parent() != nil {
+					if isStringType(v.Type()) {
+						terms = append(terms, terminal{fn, x, sp})
+					}
+					continue
+				}
+				for _, s := range sites {
+					cv, ok := s.(*ssa.Call)
+					if !ok {
+						continue
+					}
+					if fn.Signature.Results().Len() == 1 {
+						track(cv, sp, depth+1)
+					} else {
+						for _, e := range extractsOf(cv, idx) {
+							track(e, sp, depth+1)
+						}
+					}
+				}
+			case *ssa.Call:
+				cc := x.Common()
+				full := calleeFullName(x)
+				switch full {
+				case "bytes.TrimPrefix", "strings.TrimPrefix":
+					if cc.Args[0] == v {
+						P, ok := litOf(cc.Args[1])
+						nsp := sp
+						if !ok {
+							nsp.lo = badPos("a stripped prefix that is not literal text")
+						} else {
+							lo := sp.lo
+							nsp.lo = func(L Tmpl) (int, bool, string) {
+								o, fe, why := lo(L)
+								if why != "" {
+									return 0, false, why
+								}
+								head := literalHead(L)
+								if fe || o > len(head) || !strings.HasPrefix(head[o:], P) {
+									return 0, false, fmt.Sprintf("the stripped prefix %q is not the literal text of this layout", P)
+								}
+								return o + len(P), false, ""
+							}
+						}
+						track(x, nsp, depth+1)
+					}
+					continue
+				case "bytes.HasPrefix", "bytes.Compare", "bytes.Equal", "strings.HasPrefix", "bytes.HasSuffix", "strings.HasSuffix":
+					continue
+				}
+				if b, ok := cc.Value.(*ssa.Builtin); ok {
+					if b.Name() == "append" && len(cc.Args) == 2 && cc.Args[1] == v && isStringType(v.Type()) {
+						terms = append(terms, terminal{x.Parent(), x, sp})
+					}
+					if b.Name() == "append" && len(cc.Args) == 2 && cc.Args[0] == v {
+						continue // the scanned key used as a prefix of another key
+					}
+					continue
+				}
+				if g := staticCallee(x); g != nil && c.IsLib(g) && len(g.Blocks) > 0 && !cc.IsInvoke() {
+					for i, a := range cc.Args {
+						if a == v && i < len(g.Params) {
+							track(g.Params[i], sp, depth+1)
+						}
+					}
+					continue
+				}
+				if isStringType(v.Type()) {
+					terms = append(terms, terminal{x.Parent(), x, sp})
+				}
+			case *ssa.MakeInterface:
+				onlyPanic := true
+				for _, rr := range realReferrers(x) {
+					if _, ok := rr.(*ssa.Panic); !ok {
+						onlyPanic = false
+					}
+				}
+				if isStringType(v.Type()) && !onlyPanic {
+					terms = append(terms, terminal{x.Parent(), x, sp})
+				}
+			}
+		}
+	}
+	nsrc := 0
+	for _, fn := range c.LibFuncs {
+		if strings.HasPrefix(c.pkgRel(fn), "store") {
+			continue
+		}
+		for _, b := range fn.Blocks {
+			for _, in := range b.Instrs {
+				v, ok := in.(ssa.Value)
+				if !ok {
+					continue
+				}
+				_, f, n := fieldLoad(v)
+				if f != "Key" || n == nil || !c.libNamedIs(n, "store", "Item") {
+					continue
+				}
+				nsrc++
+				track(v, kspan{absPos(0), endPos(0)}, 0)
+			}
+		}
+	}
+	if nsrc == 0 {
+		o.add(UNDECIDED, "sources", "-", "no read of store.Item.Key found outside the adapters")
+		return o.list
+	}
+	cnt := map[string]int{}
+	for _, t := range terms {
+		base := c.fname(t.fn) + "/decoded key part"
+		cnt[base]++
+		key := base
+		if cnt[base] > 1 {
+			key = fmt.Sprintf("%s #%d", base, cnt[base])
+		}
+		pos := relPath(c, t.at.Pos())
+		okL, why := "", ""
+		for _, L := range layouts {
+			lo, lfe, w1 := t.span.lo(L)
+			hi, hfe, w2 := t.span.hi(L)
+			if w1 != "" || w2 != "" {
+				if why == "" {
+					why = w1 + w2
+				}
+				continue
+			}
+			// spans of the variable parts of L
+			off, known := 0, true
+			for i, p := range L {
+				last := i == len(L)-1
+				if p.K == pLit {
+					off += len(p.S)
+					continue
+				}
+				if known && !lfe && lo == off && last && hfe && hi == 0 {
+					okL = L.String() + ": the part " + Tmpl{p}.String() + " up to the end of the key"
+				}
+				if last && lfe && lo > 0 && hfe && hi == 0 && i > 0 && L[i-1].K == pEnc {
+					okL = fmt.Sprintf("%s: the fixed-length (%d bytes) id that ends the key, after the self-delimiting encoded value", L.String(), lo)
+				}
+				known = false
+			}
+			if okL != "" {
+				break
+			}
+		}
+		if okL != "" {
+			o.add(OK, key, pos, "exactly one variable part of the written layout %s", okL)
+			continue
+		}
+		if why == "" {
+			why = "the cut does not coincide with a variable part of any written key layout"
+		}
+		o.add(VIOLATED, key, pos, "the text recovered from the scanned key is delimited by %s", why)
+	}
+	if len(terms) == 0 {
+		o.add(INFO, "decoders", "-", "no name or id is recovered from a scanned key")
+	}
+	return o.list
+}
+
+func isStringType(t types.Type) bool {
+	b, ok := t.Underlying().(*types.Basic)
+	return ok && b.Kind() == types.String
 }
